@@ -151,11 +151,11 @@ PROVED PART: both hold for every input in the fragment `W` (`inW`, Fragment.lean
 DECIDABLE predicate on rune strings, no size bound): plain words, also with placeholder groups
 (`{x}`, `a{x}b`, `{$ENV}`, `{}` — the formatter keeps their `{` back for one character like a
 block brace), any non-CR white space /
-indentation / blank lines, arbitrarily nested `… {⏎ … ⏎}` blocks, simple double-quoted strings
-(one line, no backslash, followed by white space), simple backquoted strings (one line, any
+indentation / blank lines, arbitrarily nested `… {⏎ … ⏎}` blocks, one-line double-quoted strings
+(escapes `\"`, `\\`, `\n` … allowed, followed by white space), simple backquoted strings (one line, any
 characters incl. backslash, followed by white space), comments (own line, after a
 word, or after `{` on the same line — that one is moved to the next line; any text without backslash / trailing blank).  NOT covered by these two
-theorems (only by the correspondence stream and the impl-side oracle): multi-line or escaped
+theorems (only by the correspondence stream and the impl-side oracle): multi-line
 quoted strings, heredoc tokens, line continuations, `#`/`"`/`<` inside words, CR, comments
 directly after `}` on the same line or directly before `{`.
 -/
@@ -201,6 +201,9 @@ example : format (runes "a\n{x} b") = runes "a \n{x} b\n" := by decide
 -- a comment after `{` on the same line is moved into the block
 set_option maxRecDepth 100000 in
 example : inW (runes "a { # c\nb\n}") = true ∧ format (runes "a { # c\nb\n}") = runes "a {\n\t# c\n\tb\n}\n" := by decide
+-- escapes inside double-quoted strings
+set_option maxRecDepth 100000 in
+example : inW (runes "respond \"{\\\"k\\\": \\\"v\\\"} \\\\ \\<<x\" 200") = true := by decide
 -- backquoted strings: literal, a backslash is an ordinary character in them
 set_option maxRecDepth 100000 in
 example : inW (runes "root  `C:\\sites\\a b`  {\n respond `say \"hi\" # {x}` 200\n}\n``") = true := by
